@@ -268,6 +268,9 @@ func getterView(c IClaims) string {
 			fmt.Fprintf(&b, " %d: %x %v | %x %v | %q %v | %q %v | %q %v\n", i, mv, e1, si, e2, mt, e3, ve, e4, md, e5)
 		}
 	}
+	if x, ok := c.(interface{ hExtView() string }); ok {
+		b.WriteString(x.hExtView())
+	}
 	return b.String()
 }
 
@@ -281,7 +284,7 @@ func boundedCBORRoundTrip() (ok bool) {
 			ok = false
 		}
 	}()
-	for _, c := range validSets() {
+	for _, c := range append(validSets(), extSets()...) {
 		b, err := ValidateAndEncodeClaimsToCBOR(c)
 		if err != nil {
 			fmt.Println("bounded: valid set does not encode:", err)
@@ -683,7 +686,7 @@ func boundedJSONRoundTrip() (ok bool) {
 			ok = false
 		}
 	}()
-	for _, c := range validSets() {
+	for _, c := range append(validSets(), extSets()...) {
 		j, err := ValidateAndEncodeClaimsToJSON(c)
 		if err != nil {
 			fmt.Println("bounded: json encode:", err)
